@@ -164,11 +164,24 @@ CHECKS["C05"] = {
     "level_note": "allocation is process-wide (includes the harness's own small allocations); huge-index classes are listed known findings",
 }
 
+# ---- entries written by the check builders (kept in their own files) ----
+import os as _os
+_here = _os.path.dirname(_os.path.abspath(__file__))
+for _f in ["registry_C20.py.txt", "registry_C19.py.txt", "registry_C07.py.txt", "registry_C08.py.txt", "registry_C14.py.txt", "registry_C15.py.txt", "registry_C06.py.txt", "registry_C13.py.txt"]:
+    _p = _os.path.join(_here, _f)
+    if _os.path.exists(_p):
+        exec(compile(open(_p).read(), _p, "exec"))
+
 MANIFEST_META = {
     "hook_commits": ["db0b83b", "f0ff4d9", "d998a9e"],
     "pending_reason": {},
     "engines": [
-        {"name": "E2 codec", "path": "harness/checks/c04_decode, c06_*, c13_*", "serves_properties": ["C04", "C06", "C13"], "kind_free_text": "generators + per-call oracles on the real decoders, single-goroutine children, allocation measured per call"},
+        {"name": "E1 piece store", "path": "harness/checks/e1_store, harness/sched", "serves_properties": ["C01", "C03"], "kind_free_text": "real tor/piece.Pieces under a deterministic yield-point scheduler (stateless DFS / random) inside a synctest bubble, and free-running under -race; porcupine visibility model; reflect accounting at cuts; LRU in virtual time"},
+        {"name": "E2 codec", "path": "harness/checks/c04_decode, c06_roundtrip, c13_torfile, harness/refwire", "serves_properties": ["C04", "C06", "C13"], "kind_free_text": "generators + per-call oracles on the real decoders/encoders/parsers, single-goroutine children, allocation measured per call, differential against the independent refwire codec"},
+        {"name": "E3 swarm", "path": "harness/swarm, harness/checks/c05_hostile, c09_conserve, c10_requests, c16_upload, c17_lifecycle", "serves_properties": ["C05", "C09", "C10", "C11", "C16", "C17"], "kind_free_text": "real tor.AddTorrent loops + real peer.Run actors on net.Pipe against scripted remote peers speaking refwire, inside one synctest bubble per history (virtual time, synctest.Wait quiescent cuts, reflect state readers, parked mailbox)"},
+        {"name": "E4 handshake", "path": "harness/refwire/mse.go, harness/checks/c07_handshake, c08_policy", "serves_properties": ["C07", "C08"], "kind_free_text": "storrent's handshakes against the independent refwire MSE/BT implementation over net.Pipe with harness-chosen segmentation inside synctest bubbles; storrent<->storrent through a re-segmenting relay; tapped tables of option pairs; real tor.DialClient through a harness SOCKS5 listener; crypto.Conn over an in-memory duplex with write-fault injection"},
+        {"name": "E5 sockets", "path": "harness/checks/c14_webseed, c15_tracker, harness/refwire/tracker.go", "serves_properties": ["C14", "C15"], "kind_free_text": "local httptest / UDP servers playing hostile web seeds and trackers; storrent's client side in real time or in a synctest bubble where timers matter; tor.NewWriter driven directly with every split"},
+        {"name": "E6 front-end", "path": "harness/fixture/frontend.go, harness/checks/c19_webui, c20_namespace", "serves_properties": ["C19", "C20"], "kind_free_text": "storhttp.Serve registers the handlers once; requests go through http.DefaultServeMux.ServeHTTP with recorders (panics recovered into violations); FUSE nodes via fuse.VerifRoot(); real torrent event loops on a truth-prefilled store; scripted refwire peers over net.Pipe"},
     ],
     "notes": "Runtime monitoring only. ./verif check <id> rebuilds the check binaries from /repo's working tree with -tags verif, shards a fixed (seed,tier)-determined case list over child processes, merges record streams, matches violation signatures against known-findings.json and writes evidence/<id>.json. Exit 0 held / 1 VIOLATION / 2 INCONCLUSIVE.",
 }
